@@ -23,7 +23,8 @@ META = {
         ' Round 7: the original text is recorded before any rewriting; the source tag is not truth-filtered on its way to the parser; a tract made by copying gets its own orig_index.'
         ' Round 8: a keyword dict filtered by truthiness does not drop the source tag; trs_to_dict hands out a fresh dict.'
         " Round 9: components handed to construct_trs are never an empty slice ('' means undefined)."
-        ' Round 11: the dict of trs_to_dict may be built by a helper it calls.'),
+        ' Round 11: the dict of trs_to_dict may be built by a helper it calls.'
+        ' Round 12: the break-down dict may be put together by update(zip(...)) / subscript stores.'),
     'families': ['SIB', 'DEFUSE', 'RX-LANG', 'TBL', 'FORWARD', 'DEADPARAM', 'SIB-DEFAULTS'],
 }
 
@@ -49,7 +50,24 @@ def check(ctx):
         for n in ast.walk(sc):
             if isinstance(n, ast.Dict) and len(n.keys) >= 10 and not keys:
                 keys = {k.value for k in n.keys if isinstance(k, ast.Constant)}
-    ctx.floor('trs dict keys', len(keys), 8)
+    if len(keys) < 8:
+        # the dict may be put together piecemeal: `d['k'] = ..`, `d.update(zip(('k1', 'k2'), parts))`, dict(k=..)
+        loose = set()
+        for sc in scopes:
+            for n in ast.walk(sc):
+                if isinstance(n, ast.Subscript) and isinstance(n.ctx, ast.Store) and isinstance(n.slice, ast.Constant) \
+                        and isinstance(n.slice.value, str):
+                    loose.add(n.slice.value)
+                elif isinstance(n, ast.Dict):
+                    loose |= {k.value for k in n.keys if isinstance(k, ast.Constant) and isinstance(k.value, str)}
+                elif isinstance(n, ast.Call) and dotted(n.func) == 'zip' and n.args and isinstance(n.args[0], (ast.Tuple, ast.List)):
+                    loose |= {e.value for e in n.args[0].elts if isinstance(e, ast.Constant) and isinstance(e.value, str)}
+                elif isinstance(n, ast.Call) and dotted(n.func) == 'dict':
+                    loose |= {k.arg for k in n.keywords if k.arg}
+        keys = loose
+    keys_known = len(keys) >= 8
+    if not keys_known:
+        ctx.undecided('SIB', 'trs_to_dict produces every key the properties read', 'how the dict is put together was not recognised')
     for a in ATTRS:
         if a != 'trs' and not a.endswith('_undef') or a == 'trs':
             pass
@@ -68,7 +86,8 @@ def check(ctx):
         other = [x for x in ATTRS if x != a and body == f"return self.__trs_dict['{x}']"]
         ctx.tri(body == f"return self.__trs_dict['{a}']", bool(other), 'SIB', f"TRS.{a} -> dict key '{a}'",
                 detail_bad=f"TRS.{a} reads key '{other[0] if other else ''}'", key=f"SIB|TRS.{a}")
-        ctx.check(a in keys, 'SIB', f"trs_to_dict produces key '{a}'",
+        if keys_known:
+          ctx.check(a in keys, 'SIB', f"trs_to_dict produces key '{a}'",
                   detail_bad=f"key {a!r} missing from the decomposition", key=f"SIB|trs_to_dict|{a}")
     # Tract.trs getter (first definition is the property getter)
     tget = [st for st in tract.node.body if isinstance(st, ast.FunctionDef) and st.name == 'trs']
@@ -94,7 +113,7 @@ def check(ctx):
         ctx.shape('ns = twp_ns' in al and 'ew = rge_ew' in al, 'SIB', f"{nm}.ns/.ew alias twp_ns/rge_ew")
 
     # strict decomposition (same rules as C12, necessary here too)
-    c12.anchored_calls(ctx, t2d, min_calls=1)
+    c12.anchored_calls(ctx, c12.unpack_func(ctx), min_calls=1)
     rv = c12.unpacker(ctx)
     L = common.lang(ctx, rv)
     for s in ('154n97w114', '154n97w100', '1154n97w14', '154n97w1'):
